@@ -62,6 +62,40 @@ func registerHost(in *Interp) {
 	H["errors.New"] = func(in *Interp, a []Value, _ ssa.CallInstruction) Value {
 		return in.newError("errors.New@"+in.where(), nil)
 	}
+	// errors.Is: identity / equality along the %w chain (symbolic errno values give a symbolic answer)
+	var errIs func(in *Interp, err, target Value, depth int) *sym.Term
+	errIs = func(in *Interp, err, target Value, depth int) *sym.Term {
+		e, ok := err.(Iface)
+		if !ok || e.T == nil || depth > 16 {
+			return in.B.False()
+		}
+		t := target.(Iface)
+		here := in.B.False()
+		if t.T != nil {
+			_, eObj := e.V.(*ErrObj)
+			_, tObj := t.V.(*ErrObj)
+			if eObj || tObj {
+				if eObj && tObj {
+					here = in.B.Bool(e.V == t.V)
+				}
+			} else if types.Identical(e.T, t.T) {
+				here = in.eqValues(e.V, t.V)
+			}
+		}
+		if eo, isObj := e.V.(*ErrObj); isObj && eo.Wrap != nil {
+			return in.B.Or(here, errIs(in, eo.Wrap, target, depth+1))
+		}
+		return here
+	}
+	H["errors.Is"] = func(in *Interp, a []Value, _ ssa.CallInstruction) Value { return errIs(in, a[0], a[1], 0) }
+	H["errors.Unwrap"] = func(in *Interp, a []Value, _ ssa.CallInstruction) Value {
+		if e, ok := a[0].(Iface); ok && e.T != nil {
+			if eo, isObj := e.V.(*ErrObj); isObj && eo.Wrap != nil {
+				return eo.Wrap
+			}
+		}
+		return Iface{}
+	}
 	ioRes := func(in *Interp, a []Value, _ ssa.CallInstruction) Value {
 		return Tuple{in.B.Const(in.WordBits, 0), Iface{}}
 	}
